@@ -24,6 +24,10 @@ pub struct TKnobs {
     pub clock: ClockCfg,
     #[serde(with = "hex128")]
     pub namespace: u128,
+    /// the driver keeps the `Arc`s that `add_order` returned for the pre-loaded orders alive
+    /// until the run is over (a caller that holds on to what it was given)
+    #[serde(default)]
+    pub hold: bool,
 }
 
 #[derive(Clone, Debug, PartialEq, Serialize, Deserialize)]
@@ -261,11 +265,15 @@ pub fn run_program(p: &Program) -> TOutcome {
     let lp = p.knobs.price;
     // ---- phase 1: setup (sequential, unscheduled)
     let setup_hooks = SeqHooks::new(ClockCfg::default(), p.knobs.hash_seed, p.knobs.shards);
+    let mut held = vec![];
     let level = {
         let _i = Installed::new(setup_hooks.clone());
         let level = PriceLevel::new(lp);
         for o in &p.preload {
-            level.add_order(o.to_lib());
+            let a = level.add_order(o.to_lib());
+            if p.knobs.hold {
+                held.push(a);
+            }
             if p.churn.contains(&o.id) {
                 let _ = level.update_order(
                     UpdSpec {
@@ -277,7 +285,10 @@ pub fn run_program(p: &Program) -> TOutcome {
                     }
                     .to_lib(),
                 );
-                level.add_order(o.to_lib());
+                let a = level.add_order(o.to_lib());
+                if p.knobs.hold {
+                    held.push(a);
+                }
             }
         }
         Arc::new(level)
